@@ -18,6 +18,7 @@ import warnings
 warnings.simplefilter("ignore")
 
 import stix2  # noqa: E402
+import stix2.versioning  # noqa: E402
 from stix2.base import _STIXBase  # noqa: E402
 
 
@@ -114,6 +115,14 @@ def make(case, allow):
         return stix2.parse_observable(data, allow_custom=allow, version=case["cid"][:3])
     if case.get("prebuilt"):
         prebuild(data, case["prebuilt"])
+    if case["route"] == "new_version":
+        # a valid object first, then versioning.new_version with the extra (custom) properties
+        base = find_class(case["cid"])(allow_custom=False, **data)
+        return stix2.versioning.new_version(base, allow_custom=allow, **copy.deepcopy(case["extra_props"]))
+    if case["route"] == "construct_positional":
+        # Bundle(*members, **rest): the members handed over positionally
+        members = data.pop("objects", [])
+        return find_class(case["cid"])(*members, allow_custom=allow, **data)
     return find_class(case["cid"])(allow_custom=allow, **data)
 
 
